@@ -9,7 +9,8 @@
    takes representable values (inside the bitfield limits).  The explicit set
    of assignments denoted by u is { f | in_range t f /\ sem t u f = true }. *)
 From Coq Require Import ZArith List Bool String Lia.
-From Omega Require Import L0Bits.Bits L0Bits.BitsFacts L3Context.Ctx L3Context.CtxFacts.
+From Omega Require Import L0Bits.Bits L0Bits.BitsFacts L3Context.Ctx L3Context.CtxFacts
+  L3Context.Prime L3Context.Naming L3Context.NamingFacts.
 Import ListNotations.
 Open Scope Z_scope.
 
@@ -183,6 +184,54 @@ Proof.
       try reflexivity; discriminate.
 Qed.
 
+(* ---- pick ------------------------------------------------------------------------------------------ *)
+Theorem C07_pick_spec : forall t u care_vars cb cubes,
+  wf_tbl t -> uses_only (all_bits t) u ->
+  care_bits_of t care_vars = Some cb -> contract (all_bits t) u cb cubes ->
+  exists r, ctx_pick t u care_vars cubes = Some r /\
+    match r with
+    | None => forall f, in_range t f -> sem t u f = false
+    | Some d => forall f, in_range t f -> extends f d -> sem t u f = true
+    end.
+Proof. exact pick_spec. Qed.
+
+(* ---- substitution of BDDs for Boolean-valued variables ------------------------------------------ *)
+Theorem C07_replace_with_bdd_spec : forall t subs u,
+  wf_tbl t -> uses_only (all_bits t) u ->
+  (forall x q, In (x, q) subs -> tlookup x t = Some DBool) ->
+  forall f, sem t (ctx_replace_with_bdd subs u) f =
+    sem t u (fun x => match dict_get String.eqb x subs with
+                      | Some q => VB (sem t q f)
+                      | None => f x
+                      end).
+Proof. exact replace_with_bdd_spec. Qed.
+
+(* ---- bit names (finding F15) ---------------------------------------------------------------------
+   The model identifies a bit with (variable, index).  This is faithful when the
+   printing of bits as dd variable names is injective on the declared bits: *)
+Theorem C07_naming_injective : forall t, naming_injective t = true ->
+  forall b1 b2, In b1 (all_bits t) -> In b2 (all_bits t) ->
+    bit_str t b1 = bit_str t b2 -> NoDup (all_bits t) -> b1 = b2.
+Proof. exact naming_injective_spec. Qed.
+
+(* refuted for the code before fixes/F15.patch: Boolean b_0 and integer b were
+   both accepted when declared in separate calls, and bit 0 of b prints as b_0 *)
+Example C07_refuted_naming_old_code :
+  let t := [("b_0"%string, DBool); ("b"%string, DInt (mkHint 2 false (0, 3)))] in
+  naming_injective t = false /\
+  bit_str t ("b"%string, 0%nat) = bit_str t ("b_0"%string, 0%nat).
+Proof. exact F15_collision_old_code. Qed.
+
+(* the guard of fixes/F15.patch rejects the second declaration in either order *)
+Example C07_F15_guard_rejects :
+  add_vars_guard [("b_0"%string, DBool)]
+                 [("b"%string, DInt (mkHint 2 false (0, 3)))] = false /\
+  add_vars_guard [("b"%string, DInt (mkHint 2 false (0, 3)))]
+                 [("b_0"%string, DBool)] = false /\
+  add_vars_guard [("a"%string, DBool)]
+                 [("b"%string, DInt (mkHint 2 false (0, 3)))] = true.
+Proof. exact F15_guard_rejects. Qed.
+
 (* ---- count ---------------------------------------------------------------------------------------- *)
 (* count = the number of assignments to the bits of the care variables
    (default: the support) that satisfy u — by the bijection above, the number
@@ -214,18 +263,15 @@ Theorem C07_count_default : forall t u s, ctx_support t u = Some s ->
   ctx_count t u None = ctx_count t u (Some s).
 Proof. exact count_default. Qed.
 
-(* Not proved as a theorem (kept visible): for care_vars = None the cubes of
-   dd.pick_iter are total over the support BITS only, so one cube may yield
-   several dictionaries; that their number still equals count(u) is checked by
-   the correspondence on every instance, not proved. *)
-Definition C07_full_count_default : Prop :=
-  forall t u cubes s n ds,
-  wf_tbl t -> uses_only (all_bits t) u ->
+(* care_vars = None: the cubes of dd.pick_iter are total over the support BITS
+   only, so one cube may yield several dictionaries; their total number still
+   equals count(u) *)
+Theorem C07_count_eq_yield_default : forall t u cubes s,
+  wf_tbl t -> uses_only (all_bits t) u -> ctx_support t u = Some s ->
   contract (all_bits t) u None cubes ->
-  ctx_support t u = Some s ->
-  ctx_count t u None = Some n ->
-  ctx_pick_iter t u None cubes = Some ds ->
-  n = Z.of_nat (List.length ds).
+  exists n ds, ctx_count t u None = Some n /\
+    ctx_pick_iter t u None cubes = Some ds /\ n = Z.of_nat (List.length ds).
+Proof. exact count_eq_yield_default. Qed.
 
 Print Assumptions C07_bits_values_bijection.
 Print Assumptions C07_enumerate_int_spec.
@@ -242,3 +288,7 @@ Print Assumptions C07_pick_iter_total.
 Print Assumptions C07_count_spec.
 Print Assumptions C07_count_eq_yield.
 Print Assumptions C07_count_default.
+Print Assumptions C07_count_eq_yield_default.
+Print Assumptions C07_pick_spec.
+Print Assumptions C07_replace_with_bdd_spec.
+Print Assumptions C07_naming_injective.
